@@ -353,8 +353,6 @@ def known(c, fail):
                 return 'C06-16-32-raw-not-implemented'
         if c['pw'] or c['ph']:
             return 'C06-16-32-offsets-ignored'
-        if (d == 16 and (bw * 2) % 4) or (d == 32 and (bw * 3) % 4):
-            return 'C06-16-32-stride'
         return None
     return None
 
